@@ -1092,6 +1092,11 @@ class Engine:
             if isinstance(obj, SRecord):
                 obj.fields[target.attr] = v
                 return
+            hook = self.c.calls.get('setattr:' + target.attr)
+            if hook is not None:
+                # attribute store on an opaque object, given a meaning by the contract (typically a ghost map obj -> value)
+                hook(self, st, [obj, v], {}, target)
+                return
             raise Undecided('attribute assignment on non-record: %s' % ast.unparse(target))
         if isinstance(target, ast.Subscript):
             cont = self.ev(target.value, st)
@@ -2087,6 +2092,12 @@ class Engine:
 
     def ev_Starred(self, node, st):
         raise Undecided('starred expression')
+
+    def ev_DictComp(self, node, st):
+        hook = self.c.calls.get('dictcomp:' + ast.unparse(node))
+        if hook is None:
+            raise Undecided('dict comprehension without a contract model: %s' % ast.unparse(node))
+        return hook(self, st, [], {}, node)
 
     def ev_Dict(self, node, st):
         if not all(isinstance(k, ast.Constant) and isinstance(k.value, str) for k in node.keys):
